@@ -214,7 +214,7 @@ func init() {
 		},
 		Stages: []*fw.Stage{
 			{
-				Name: "canonical", N: q(250000, 8000000),
+				Name: "canonical", N: q(250000, 16000000),
 				Run: func(c *fw.Case) {
 					t := libTypeIdx(ts(), c.Idx)
 					force, class := -1, 0
@@ -230,7 +230,7 @@ func init() {
 				},
 			},
 			{
-				Name: "mutated", N: q(300000, 12000000),
+				Name: "mutated", N: q(300000, 24000000),
 				Run: func(c *fw.Case) {
 					t := typeIdx(ts(), c.Idx)
 					v, _ := pdus.Gen(t, c.R, -1, 0)
